@@ -1,3 +1,4 @@
+import NucsProofs.Engine.ShavingTerm
 import NucsProofs.Engine.Termination
 import NucsProofs.Engine.DfsTerm
 /-!
@@ -22,7 +23,7 @@ import NucsProofs.Engine.DfsTerm
   no_sub_cycle (restart loop) and trivially for the closed-form algorithms; for the ported
   alldifferent/gcc pointer chasing it is validated by correspondence (gcc with a zero capacity does
   spin: known finding K1).  Search termination is `C04_search` (and, for the whole enumeration / optimisation with explicit fuels,
-  `C02_enumeration`, `C03_optimum`).  With shaving the inner loop's own fuel bound is not proved (`ConsTerm` is a hypothesis there).
+  `C02_enumeration`, `C03_optimum`).  With shaving: `C04_shavingPass` (the pass returns after at most 2·W + 2·n + 1 probes; the fuel the model grants the loop is sufficient) and `Dfs.consTerm_shaving`.
 -/
 namespace Nucs
 
